@@ -49,7 +49,8 @@ class Machine(_Base):
         return 50 if tier == 'quick' else 120
 
     def machine(self, col, tier):
-        return tracker.make_machine(col, self, tier, CHECKS)
+        return tracker.make_machine(col, self, tier, CHECKS, kinds=('message', 'delete', 'bind', 'server_event', 'sync', 'newer', 'retype', 'enum', 'midsession',
+                                                                   'server_retype', 'repeat', 'clock_back'))
 
 
 class DeepReuse(_Base):
@@ -147,6 +148,12 @@ class FreshProcess(_Base):
     def gen(self, d, tier):
         prof = dict(reuse=0.95, server_reuse=0.8, weights=dict(deep=30, message=30, delete=16, bind=8, server_event=12, sync=4))
         specs = histgen.history(d, nconn=d.int(1, 2), nmsg=d.int(12, 45), profile=prof)
+        if d.chance(0.35) and len(specs) > 3:
+            # the clock steps back in the middle of the log (32-bit wrap, stepped realtime clock): still one log, the same connections
+            k = d.int(1, len(specs) - 1)
+            delta = min(specs[k]['t_us'], d.choice([1_500_000, 2_500_000, 100_000_000, 4_000_000_000]))
+            for m in specs[k:]:
+                m['t_us'] -= delta
         names = sorted({m['name'] for m in specs[len(specs) // 2:]})
         types = sorted({m['iface'] for m in specs[len(specs) // 2:]})
         flt = d.choice(['.' + d.choice(names), d.choice(types), d.choice(types) + ', .' + d.choice(names), '* ! .sync, .delete_id', '.destroyed'])
